@@ -79,7 +79,7 @@ Section STEP.
     gw_good : forall u, (u < length progs)%nat -> u <> t -> GoodT u (getth st u) (s_now st) (s_clock st) tr;
     gw_idler : th_state (getth st (idler_tid st)) <> SLEEPING;
     gw_t : (t < length progs)%nat;
-    gw_issued : th_issued (getth st t) <= s_now st;
+    gw_issued : 0 <= th_issued (getth st t) <= s_now st;
     gw_awake : th_state (getth st t) <> SLEEPING;
     gw_cur : exists rest, s_runq st = t :: rest
   }.
@@ -113,7 +113,7 @@ Section STEP.
 
   (* rewriting fields of t that the scheduler ignores keeps GIw *)
   Lemma GIw_modth st t tr f :
-    GIw st t tr -> sched_neutral f -> (forall th, th_issued (f th) <= s_now st \/ th_issued (f th) = th_issued th) ->
+    GIw st t tr -> sched_neutral f -> (forall th, 0 <= th_issued (f th) <= s_now st \/ th_issued (f th) = th_issued th) ->
     GIw (modth st t f) t tr.
   Proof.
     intros G Hf Hi. pose proof (GIw_t_range _ _ _ G) as Hr.
@@ -245,7 +245,7 @@ Section STEP.
   Definition plain_op (c : core_op) : Prop :=
     match c with OUsleep _ | OYield | OYieldTo _ => False | _ => True end.
 
-  Lemma EvOK_plain tr ev c : ev_op progs ev = Some (OCore c) -> plain_op c -> ev_issued ev <= ev_time ev -> EvOK tr ev.
+  Lemma EvOK_plain tr ev c : ev_op progs ev = Some (OCore c) -> plain_op c -> 0 <= ev_issued ev <= ev_time ev -> EvOK tr ev.
   Proof.
     intros Hop Hp Hi. split; [exact Hi|]. split.
     - intros d Hd. rewrite Hop in Hd. injection Hd as ->. destruct Hp.
